@@ -873,8 +873,8 @@ Theorem mark_body_rfc_not_valid : forall p res L c out t0,
   find_id (if is_state Succeeded p && negb (p_disc p =? 0) then p_disc p else p_id p) L = Some t0 ->
   p_valid t0 = false -> p_nom t0 = false ->
   mark_body true p (res, L, c, out) =
-  (res || (p_trig t0 || is_state InProgress t0),
-   if p_trig t0 || is_state InProgress t0 then update_id (p_id t0) (fun q => set_mnora q true) L else L, c, out ++ []).
+  Some (res || (p_trig t0 || is_state InProgress t0),
+        if p_trig t0 || is_state InProgress t0 then update_id (p_id t0) (fun q => set_mnora q true) L else L, c, out ++ []).
 Proof.
   intros p res L c out t0 F V N; unfold mark_body; rewrite F, V, N; simpl.
   assert (E : (if is_state Succeeded p && negb (p_disc p =? 0) then p_disc p else p_id p) = p_id t0).
@@ -885,7 +885,7 @@ Qed.
 Theorem mark_body_legacy_nominates : forall p res L c out t0,
   find_id (if is_state Succeeded p && negb (p_disc p =? 0) then p_disc p else p_id p) L = Some t0 -> p_valid t0 = false ->
   mark_body false p (res, L, c, out) =
-  let '(L3, c3, o3) := for_ready (update_id (p_id t0) (fun q => set_nom q true) L) c in (true, L3, c3, out ++ [] ++ o3).
+  let '(L3, c3, o3) := for_ready (update_id (p_id t0) (fun q => set_nom q true) L) c in Some (true, L3, c3, out ++ [] ++ o3).
 Proof.
   intros p res L c out t0 F V; unfold mark_body; rewrite F, V; simpl.
   assert (E : (if is_state Succeeded p && negb (p_disc p =? 0) then p_disc p else p_id p) = p_id t0).
@@ -906,7 +906,7 @@ Theorem mark_body_valid : forall rfc p res L c out t0,
   find_id (if is_state Succeeded p && negb (p_disc p =? 0) then p_disc p else p_id p) L = Some t0 -> p_valid t0 = true ->
   mark_body rfc p (res, L, c, out) =
   let '(c2, o2) := comp_step c (p_prio t0) in
-  let '(L3, c3, o3) := for_ready (nominate_target rfc t0 L) c2 in (true, L3, c3, out ++ o2 ++ o3).
+  let '(L3, c3, o3) := for_ready (nominate_target rfc t0 L) c2 in Some (true, L3, c3, out ++ o2 ++ o3).
 Proof.
   intros rfc p res L c out t0 F V; unfold mark_body; rewrite F, V; simpl.
   assert (E : (if is_state Succeeded p && negb (p_disc p =? 0) then p_disc p else p_id p) = p_id t0).
@@ -948,14 +948,14 @@ Qed.
 
 Definition same_core (q' q : pair) : Prop :=
   p_id q' = p_id q /\ p_local q' = p_local q /\ p_remote q' = p_remote q /\ p_state q' = p_state q /\ p_comp q' = p_comp q /\
-  p_prio q' = p_prio q /\ (p_trig q' = p_trig q \/ p_trig q' = false).
+  p_prio q' = p_prio q /\ p_disc q' = p_disc q /\ (p_trig q' = p_trig q \/ p_trig q' = false).
 Definition safe (p : pair) : Prop := p_state p <> Frozen /\ p_state p <> Waiting /\ p_trig p = false.
 Lemma same_core_refl : forall q, same_core q q.
 Proof. intro q; unfold same_core; auto 10. Qed.
 Lemma same_core_trans : forall a b c, same_core a b -> same_core b c -> same_core a c.
-Proof. unfold same_core; intros a b c [A1 [A2 [A3 [A4 [A5 [A6 A7]]]]]] [B1 [B2 [B3 [B4 [B5 [B6 B7]]]]]]; repeat split; try congruence. destruct A7 as [A7 | A7], B7 as [B7 | B7]; auto; [left | right]; congruence. Qed.
+Proof. unfold same_core; intros a b c [A1 [A2 [A3 [A4 [A5 [A6 [A8 A7]]]]]]] [B1 [B2 [B3 [B4 [B5 [B6 [B8 B7]]]]]]]; repeat split; try congruence. destruct A7 as [A7 | A7], B7 as [B7 | B7]; auto; [left | right]; congruence. Qed.
 Lemma same_core_safe : forall q' q, same_core q' q -> safe q -> safe q'.
-Proof. unfold same_core, safe; intros q' q [_ [_ [_ [S [_ [_ T]]]]]] [A [B C]]; rewrite S; repeat split; auto. destruct T; congruence. Qed.
+Proof. unfold same_core, safe; intros q' q [_ [_ [_ [S [_ [_ [_ T]]]]]]] [A [B C]]; rewrite S; repeat split; auto. destruct T; congruence. Qed.
 Lemma update_id_core : forall id f l, (forall q, same_core (f q) q) -> Forall2 (fun q q2 => same_core q2 q) l (update_id id f l).
 Proof. intros id f l H; induction l as [|a l IH]; simpl; constructor; auto. destruct (p_id a =? id); [apply H | apply same_core_refl]. Qed.
 Lemma F2_in_l : forall {A B} (R : A -> B -> Prop) l l' x, Forall2 R l l' -> In x l -> exists y, In y l' /\ R x y.
@@ -972,44 +972,55 @@ Proof.
 Qed.
 (* the list after for_ready: every pair comes from a pair before; safe pairs stay *)
 Lemma for_ready_list : forall l c, let l' := fst (fst (for_ready l c)) in
-  (forall q', In q' l' -> exists q, In q l /\ same_core q' q) /\ (forall q, In q l -> safe q -> exists q', In q' l' /\ p_id q' = p_id q).
+  (forall q', In q' l' -> exists q, In q l /\ same_core q' q) /\ (forall q, In q l -> safe q -> exists q', In q' l' /\ same_core q' q).
 Proof.
   intros l c; rewrite for_ready_eq.
   assert (Pr : let l' := snd (prune (c_id c) (c_sel c) l) in
-    (forall q', In q' l' -> exists q, In q l /\ same_core q' q) /\ (forall q, In q l -> safe q -> exists q', In q' l' /\ p_id q' = p_id q)).
+    (forall q', In q' l' -> exists q, In q l /\ same_core q' q) /\ (forall q, In q l -> safe q -> exists q', In q' l' /\ same_core q' q)).
   { split.
     - intros q' I; apply prune_result in I; destruct I as [q [Iq [_ ->]]]; exists q; split; auto; apply touch_core.
-    - intros q I S; exists (touch (c_id c) (c_sel c) q); split; [apply prune_result; exists q; repeat split; auto; apply safe_not_prunable; exact S | apply touch_fields]. }
-  assert (Id : (forall q', In q' l -> exists q, In q l /\ same_core q' q) /\ (forall q, In q l -> safe q -> exists q', In q' l /\ p_id q' = p_id q)).
-  { split; [intros q' I; exists q'; split; auto; apply same_core_refl | intros q I _; exists q; auto]. }
+    - intros q I S; exists (touch (c_id c) (c_sel c) q); split; [apply prune_result; exists q; repeat split; auto; apply safe_not_prunable; exact S | apply touch_core]. }
+  assert (Id : (forall q', In q' l -> exists q, In q l /\ same_core q' q) /\ (forall q, In q l -> safe q -> exists q', In q' l /\ same_core q' q)).
+  { split; [intros q' I; exists q'; split; auto; apply same_core_refl | intros q I _; exists q; split; auto; apply same_core_refl]. }
   destruct (goes_ready l c); simpl; [exact Pr|]. destruct (has_nominated_valid (c_id c) l); simpl; [exact Pr | exact Id].
 Qed.
-Lemma mark_body_list : forall rfc p st, let L := snd (fst (fst st)) in let L' := snd (fst (fst (mark_body rfc p st))) in
-  (forall q', In q' L' -> exists q, In q L /\ same_core q' q) /\ (forall q, In q L -> safe q -> exists q', In q' L' /\ p_id q' = p_id q).
+(* the pair the body works on: the pair itself, or the peer-reflexive pair discovered by its check *)
+Definition tid (p : pair) : Z := if is_state Succeeded p && negb (p_disc p =? 0) then p_disc p else p_id p.
+Lemma mark_body_list : forall rfc p st st', mark_body rfc p st = Some st' ->
+  let L := snd (fst (fst st)) in let L' := snd (fst (fst st')) in
+  (forall q', In q' L' -> exists q, In q L /\ same_core q' q) /\ (forall q, In q L -> safe q -> exists q', In q' L' /\ same_core q' q).
 Proof.
-  intros rfc p [[[res L] c] out]; simpl. unfold mark_body.
-  set (tid := if is_state Succeeded p && negb (p_disc p =? 0) then p_disc p else p_id p).
-  destruct (find_id tid L) as [t0|]; simpl; [|split; [intros q' I; exists q'; split; auto; apply same_core_refl | intros q I _; exists q; auto]].
-  set (L1 := if rfc && (p_trig t0 || is_state InProgress t0) then update_id tid (fun q => set_mnora q true) L else L).
-  set (L2 := if p_valid t0 || negb rfc then update_id tid (fun q => set_nom q true) L1 else L1).
+  intros rfc p [[[res L] c] out] st' H; simpl. unfold mark_body in H. fold (tid p) in H.
+  destruct (find_id (tid p) L) as [t0|]; [|discriminate].
+  set (L1 := if rfc && (p_trig t0 || is_state InProgress t0) then update_id (tid p) (fun q => set_mnora q true) L else L) in *.
+  set (L2 := if p_valid t0 || negb rfc then update_id (tid p) (fun q => set_nom q true) L1 else L1) in *.
   assert (R1 : Forall2 (fun q q2 => same_core q2 q) L L1).
   { unfold L1; destruct (rfc && (p_trig t0 || is_state InProgress t0)); [apply update_id_core; intro q; unfold same_core; simpl; auto 10|].
     clear; induction L; constructor; auto using same_core_refl. }
   assert (R2 : Forall2 (fun q q2 => same_core q2 q) L1 L2).
   { unfold L2; destruct (p_valid t0 || negb rfc); [apply update_id_core; intro q; unfold same_core; simpl; auto 10|].
     clear; induction L1; constructor; auto using same_core_refl. }
-  assert (R : (forall q', In q' L2 -> exists q, In q L /\ same_core q' q) /\ (forall q, In q L -> safe q -> exists q', In q' L2 /\ p_id q' = p_id q /\ safe q')).
+  assert (R : (forall q', In q' L2 -> exists q, In q L /\ same_core q' q) /\ (forall q, In q L -> exists q', In q' L2 /\ same_core q' q)).
   { split.
     - intros q' I. destruct (F2_in_r _ _ _ _ R2 I) as [q1 [I1 C1]]. destruct (F2_in_r _ _ _ _ R1 I1) as [q [I0 C0]]. exists q; split; auto. eapply same_core_trans; eauto.
-    - intros q I S. destruct (F2_in_l _ _ _ _ R1 I) as [q1 [I1 C1]]. destruct (F2_in_l _ _ _ _ R2 I1) as [q2 [I2 C2]]. exists q2; split; auto.
-      pose proof (same_core_trans _ _ _ C2 C1) as C. split; [apply C | eapply same_core_safe; eauto]. }
+    - intros q I. destruct (F2_in_l _ _ _ _ R1 I) as [q1 [I1 C1]]. destruct (F2_in_l _ _ _ _ R2 I1) as [q2 [I2 C2]]. exists q2; split; auto.
+      eapply same_core_trans; eauto. }
   destruct R as [Ra Rb].
   destruct (if p_valid t0 then _ else (c, [])) as [c2 o2].
   destruct (p_nom t0 || p_valid t0 || negb rfc).
-  - pose proof (for_ready_list L2 c2) as FR; cbv zeta in FR. destruct (for_ready L2 c2) as [[L3 c3] o3]; simpl in *. destruct FR as [Fa Fb]. split.
+  - pose proof (for_ready_list L2 c2) as FR; cbv zeta in FR. destruct (for_ready L2 c2) as [[L3 c3] o3]; simpl in *. destruct FR as [Fa Fb].
+    inversion H; subst st'; simpl. split.
     + intros q' I. destruct (Fa q' I) as [q2 [I2 C2]]. destruct (Ra q2 I2) as [q [I0 C0]]. exists q; split; auto. eapply same_core_trans; eauto.
-    + intros q I S. destruct (Rb q I S) as [q2 [I2 [E2 S2]]]. destruct (Fb q2 I2 S2) as [q' [I' E']]. exists q'; split; auto; congruence.
-  - simpl. split; auto. intros q I S. destruct (Rb q I S) as [q2 [I2 [E2 _]]]. exists q2; auto.
+    + intros q I S. destruct (Rb q I) as [q2 [I2 C2]]. destruct (Fb q2 I2 (same_core_safe _ _ C2 S)) as [q' [I' C']]. exists q'; split; auto. eapply same_core_trans; eauto.
+  - inversion H; subst st'; simpl. split; [exact Ra | intros q I _; apply Rb; exact I].
+Qed.
+Lemma mark_body_some : forall rfc p st, (exists t, In t (snd (fst (fst st))) /\ p_id t = tid p) -> mark_body rfc p st <> None.
+Proof.
+  intros rfc p [[[res L] c] out] [t [It Et]]; simpl in It. unfold mark_body. fold (tid p).
+  destruct (find_id (tid p) L) as [t0|] eqn:F.
+  - destruct (if p_valid t0 then _ else (c, [])) as [c2 o2]. destruct (p_nom t0 || p_valid t0 || negb rfc); [|discriminate].
+    destruct (for_ready _ c2) as [[L3 c3] o3]; discriminate.
+  - exfalso. unfold find_id in F. pose proof (find_none _ _ F t It) as X; simpl in X. apply Z.eqb_neq in X; contradiction.
 Qed.
 Lemma after_id_incl : forall id l r, after_id id l = Some r -> incl r l.
 Proof.
@@ -1017,28 +1028,110 @@ Proof.
   - inversion H; subst; intros x I; right; exact I.
   - intros x I; right; apply (IH r H x I).
 Qed.
+Lemma same_core_tid : forall q' q, same_core q' q -> tid q' = tid q.
+Proof. unfold same_core, tid, is_state; intros q' q [A [_ [_ [B [_ [_ [C _]]]]]]]; rewrite A, B, C; reflexivity. Qed.
+Definition loop_inv (lc rc : Z) (L : list pair) : Prop :=
+  forall p, In p L -> matches lc rc p = true -> safe p /\ exists t, In t L /\ p_id t = tid p /\ safe t.
 Lemma mark_loop_some : forall rfc lc rc n rest st,
-  incl rest (snd (fst (fst st))) -> (forall p, In p (snd (fst (fst st))) -> matches lc rc p = true -> safe p) ->
-  mark_loop rfc lc rc n rest st <> None.
+  incl rest (snd (fst (fst st))) -> loop_inv lc rc (snd (fst (fst st))) -> mark_loop rfc lc rc n rest st <> None.
 Proof.
   intros rfc lc rc; induction n as [|n IH]; intros rest st I S; [discriminate|]. simpl.
   destruct rest as [|p rest]; [discriminate|]. fold (matches lc rc p). destruct (matches lc rc p) eqn:M.
   - assert (Ip : In p (snd (fst (fst st)))) by (apply I; left; reflexivity).
-    pose proof (mark_body_list rfc p st) as [Ba Bb]; cbv zeta in Ba, Bb.
-    destruct (Bb p Ip (S p Ip M)) as [p' [I' E']].
-    destruct (after_id (p_id p) (snd (fst (fst (mark_body rfc p st))))) as [rest''|] eqn:A.
+    destruct (S p Ip M) as [Sp [t [It [Et St]]]].
+    destruct (mark_body rfc p st) as [st'|] eqn:B; [|exfalso; revert B; apply mark_body_some; exists t; auto].
+    pose proof (mark_body_list rfc p st st' B) as [Ba Bb]; cbv zeta in Ba, Bb.
+    destruct (Bb p Ip Sp) as [p' [I' C']].
+    destruct (after_id (p_id p) (snd (fst (fst st')))) as [rest''|] eqn:A.
     + apply IH.
       * apply after_id_incl in A; exact A.
-      * intros q Iq Mq. destruct (Ba q Iq) as [q0 [I0 C0]]. eapply same_core_safe; eauto. apply S; auto.
-        unfold matches in *; destruct C0 as [_ [-> [-> _]]]; exact Mq.
-    + exfalso; revert A; apply after_id_in; exists p'; auto.
+      * intros q Iq Mq. destruct (Ba q Iq) as [q0 [I0 C0]].
+        assert (M0 : matches lc rc q0 = true) by (unfold matches in *; destruct C0 as [_ [C1 [C2 _]]]; rewrite <- C1, <- C2; exact Mq).
+        destruct (S q0 I0 M0) as [S0 [t0 [It0 [Et0 St0]]]]. split; [eapply same_core_safe; eauto|].
+        destruct (Bb t0 It0 St0) as [t' [It' Ct']]. exists t'; split; auto. split; [|eapply same_core_safe; eauto].
+        rewrite (same_core_tid _ _ C0). destruct Ct' as [X _]; congruence.
+    + exfalso; revert A; apply after_id_in; exists p'; split; auto. apply C'.
   - apply IH; auto. intros x Ix; apply I; right; exact Ix.
 Qed.
-(** The loop of priv_mark_pair_nominated never reads a deleted link provided no pair for the nominated candidates is FROZEN, WAITING or in the
-    triggered-check queue when its nomination is processed (see [mark_nominated_cursor_freed] for a list where it does) *)
-Theorem mark_nominated_cursor_survives : forall rfc ctl l c lc rc,
-  (forall p, In p l -> matches lc rc p = true -> safe p) -> mark_nominated rfc ctl l c lc rc <> None.
+(** The loop of priv_mark_pair_nominated never reads freed memory provided no pair for the nominated candidates - nor the peer-reflexive pair
+    discovered by such a pair - is FROZEN, WAITING or in the triggered-check queue when the nomination is processed, and discovered_pair
+    pointers do not dangle at entry (see [mark_nominated_cursor_freed], [dangling_discovered_pair_after_prune] for lists where it does) *)
+Theorem mark_nominated_memory_safe : forall rfc ctl l c lc rc,
+  (forall p, In p l -> matches lc rc p = true -> safe p /\ exists t, In t l /\ p_id t = tid p /\ safe t) ->
+  mark_nominated rfc ctl l c lc rc <> None.
 Proof.
   intros rfc ctl l c lc rc S; unfold mark_nominated. destruct (rfc && ctl); [discriminate|].
   apply mark_loop_some; simpl; [apply incl_refl | exact S].
 Qed.
+(** * 8. Witnesses: what the code does NOT guarantee (each by computation on the model; the model is tied to the code) *)
+Definition mk (id comp lf rf prio : Z) (st : pstate) (nom valid trig : bool) : pair :=
+  mkPair id comp lf rf lf rf prio st nom valid false false false false trig 0.
+
+(** RFC 8445 6.1.4.2 step 2 thaws a FROZEN pair only if no pair of the same foundation is WAITING or IN_PROGRESS in any check list;
+    priv_conn_check_unfreeze_next only looks for WAITING pairs: a pair is thawed while the pair of the same foundation is still IN_PROGRESS *)
+Example rfc8445_frozen_waits_for_in_progress_refuted :
+  unfreeze_next [[mk 1 1 7 7 20 InProgress false false false; mk 2 2 7 7 10 Frozen false false false]]
+  = (true, [[mk 1 1 7 7 20 InProgress false false false; mk 2 2 7 7 10 Waiting false false false]]).
+Proof. vm_compute; reflexivity. Qed.
+(** RFC 8445 6.1.4.2 step 3: among WAITING pairs of equal priority the one with the lowest component ID is picked; the code picks the first in list order *)
+Example rfc8445_equal_priority_lowest_component_refuted :
+  let l := [mk 1 2 1 1 50 Waiting false false false; mk 2 1 2 2 50 Waiting false false false] in
+  sorted_desc l /\ option_map p_comp (find_next_waiting l) = Some 2.
+Proof. split; [repeat constructor; simpl; lia | vm_compute; reflexivity]. Qed.
+(** a stream whose FROZEN pairs all share their foundations with earlier FROZEN pairs of another stream gets no check from its own
+    ordinary-check step (the agent-wide step still makes progress: [ordinary_agent_progress]) *)
+Example ordinary_check_shadowed_stream :
+  ordinary_select [[mk 1 1 7 7 20 Frozen false false false]; [mk 2 1 7 7 10 Frozen false false false]] 1
+  = (None, [[mk 1 1 7 7 20 Waiting false false false]; [mk 2 1 7 7 10 Frozen false false false]]).
+Proof. vm_compute; reflexivity. Qed.
+(** on an unsorted list the first WAITING pair need not be the best one (the NOMINATION attribute handler of conncheck.c overwrites
+    pair->priority without re-sorting; only valid pairs, which are never WAITING) *)
+Example find_next_waiting_needs_sorted :
+  option_map p_id (find_next_waiting [mk 1 1 1 1 10 Waiting false false false; mk 2 1 2 2 90 Waiting false false false]) = Some 1.
+Proof. vm_compute; reflexivity. Qed.
+
+(** READY does not require the nominated valid pair to be SUCCEEDED or DISCOVERED: a pair whose later re-check failed still counts *)
+Example ready_with_failed_nominated_pair_refuted :
+  for_ready [mk 1 1 1 1 50 Failed true true false] (mkComp 1 st_CONNECTED 50 true)
+  = ([mk 1 1 1 1 50 Failed true true false], mkComp 1 st_READY 50 true, [st_READY]).
+Proof. vm_compute; reflexivity. Qed.
+(** READY does not wait for better pairs that were never tried: FROZEN / WAITING pairs of the component are discarded whatever their
+    priority (RFC 5245 8.1.2; RFC 8445 8.1.1 lets the controlling side decide) *)
+Example ready_discards_untried_better_pair :
+  for_ready [mk 1 1 1 1 90 Frozen false false false; mk 2 1 2 2 50 Succeeded true true false] (mkComp 1 st_CONNECTED 50 true)
+  = ([mk 2 1 2 2 50 Succeeded true true false], mkComp 1 st_READY 50 true, [st_READY]).
+Proof. vm_compute; reflexivity. Qed.
+(** pruning can delete a nominated valid pair: one that sits in the triggered-check queue with a priority below the selected pair's *)
+Example prune_never_removes_nominated_refuted :
+  prune 1 80 [mk 1 1 1 1 80 Succeeded true true false; mk 2 1 2 2 50 Succeeded true true true]
+  = (0, [mk 1 1 1 1 80 Succeeded true true false]).
+Proof. vm_compute; reflexivity. Qed.
+(** FAILED does not mean that every pair failed: succeeded (valid) pairs that nobody nominated do not count ... *)
+Example failed_with_valid_pairs_refuted :
+  failed_components false [mk 1 1 1 1 50 Succeeded false true false] [mkComp 1 st_CONNECTED 0 true]
+  = ([mkComp 1 st_FAILED 0 true], [(1, st_FAILED)]).
+Proof. vm_compute; reflexivity. Qed.
+(** ... and a component without a single pair in a non-empty check list is failed as soon as it has remote candidates *)
+Example failed_without_pairs :
+  failed_components false [mk 1 1 1 1 50 InProgress false false false] [mkComp 1 st_CONNECTING 0 true; mkComp 2 st_CONNECTING 0 true]
+  = ([mkComp 1 st_CONNECTING 0 true; mkComp 2 st_FAILED 0 true], [(2, st_FAILED)]).
+Proof. vm_compute; reflexivity. Qed.
+(** the loop of priv_mark_pair_nominated can delete the link it stands on: legacy compatibility (every incoming check nominates), the
+    component already has a selected pair of higher priority, the nominated pair is WAITING in the triggered-check queue *)
+Example mark_nominated_cursor_freed :
+  mark_nominated false false [mk 1 1 1 1 80 Succeeded true true false; mk 2 1 2 2 50 Waiting false false true] (mkComp 1 st_READY 80 true) 2 2 = None.
+Proof. vm_compute; reflexivity. Qed.
+(** pruning can delete a DISCOVERED pair and keep the SUCCEEDED pair whose discovered_pair points to it (or the other way round):
+    the pointer dangles, and a later nomination of the kept pair dereferences it (g_assert (pair->state == NICE_CHECK_DISCOVERED)) *)
+Example dangling_discovered_pair_after_prune :
+  let parent := mkPair 1 1 1 1 1 1 90 Succeeded false false false false false false false 2 in
+  let disc := mkPair 2 1 3 1 3 1 40 Discovered true true false false false false true 0 in
+  let best := mk 3 1 5 5 80 Succeeded true true false in
+  prune 1 80 [parent; best; disc] = (0, [parent; best]) /\
+  mark_nominated false false [parent; best] (mkComp 1 st_READY 80 true) 1 1 = None.
+Proof. vm_compute; split; reflexivity. Qed.
+(* the hypotheses of the theorems above are satisfiable *)
+Example unfreeze_progress_example :
+  unfreeze_next [[mk 1 1 7 7 30 Frozen false false false; mk 2 2 7 7 20 Frozen false false false]; [mk 3 1 8 7 10 Frozen false false false]]
+  = (true, [[mk 1 1 7 7 30 Waiting false false false; mk 2 2 7 7 20 Frozen false false false]; [mk 3 1 8 7 10 Waiting false false false]]).
+Proof. vm_compute; reflexivity. Qed.
